@@ -106,13 +106,13 @@ Example C18_ex_trace : 4 < length v5 /\
   T toyH v5 4 = [[167%N; 148%N]; [4%N]] /\
   fold_trace toyH (nth 4 v5 []) (T toyH v5 4) 4 (length v5) = [43%N; 40%N] /\
   Nroot toyH v5 = [43%N; 40%N].
-Proof. repeat split; vm_compute; try reflexivity. lia. Qed.
+Proof. repeat split; try (vm_compute; reflexivity); cbn; lia. Qed.
 
 (* pages of size 2 over 5 leaves: 3 pages, page 2 holds the single last leaf; J_1 has 2 entries *)
 Example C18_ex_paged : pages 1 v5 = 3 /\ 2 < pages 1 v5 /\ length (Lx toyH 1 v5 2) = 1 /\
   length (Jx toyH 1 v5 2) = 2 /\
   fold_trace toyH (page_root toyH 1 v5 2) (Jx toyH 1 v5 2) 2 (2 ^ (depth (length v5) - 1)) = M toyH v5.
-Proof. repeat split; vm_compute; try reflexivity. lia. Qed.
+Proof. repeat split; try (vm_compute; reflexivity); cbn; lia. Qed.
 
 (* the hypothesis of single_change is satisfiable with x different from the element only through a
    collision: a constant hash cannot tell [9] from [1] in position 0 of a two-element sequence *)
